@@ -360,3 +360,21 @@ Lemma c27_nonvacuous_lemma :
           [RCtl (Some (3, 4)); RBytes (Some [10; 11; 12]); RBytes None; RBool true; RBool true;
            RCtl (Some (7, 8)); RBytes (Some [14; 15])]).
 Proof. repeat split; vm_compute; reflexivity. Qed.
+
+(* control values over the whole range of `unsigned` are inside the hypotheses: target 8193 (larger
+   than any message size), 2^31 (negative as the int32 _size), 2^32-1; killed between two calls *)
+Definition cb_pre : list op :=
+  [OCtlPut 4294967295 8193; OPut 1 [1; 2]; OCtlPut 65536 2147483648; OPut 2 [3]].
+Definition cb_after : list op := [OCtlGet; OGet 1; OCtlPut 8192 4294967295; OCtlGet].
+Lemma c27_control_range_nonvacuous_lemma :
+  ops_wf (cb_pre ++ OReopen :: cb_after) = true /\ zero_free (cb_pre ++ OReopen :: cb_after) = true /\
+  never_lost cb_pre = true /\ no_reopen cb_after = true /\
+  crash_between file_empty cb_pre 8 = true /\
+  c27_result cb_pre 8 cb_after =
+    Some (3%nat, [RBool true; RBool true; RBool true],
+          [RCtl (Some (65536, 2147483648)); RBytes (Some [1; 2]); RBool true;
+           RCtl (Some (8192, 4294967295))]) /\
+  c27_result cb_pre 2 cb_after =
+    Some (1%nat, [RBool true],
+          [RCtl (Some (4294967295, 8193)); RBytes None; RBool true; RCtl (Some (8192, 4294967295))]).
+Proof. repeat split; vm_compute; reflexivity. Qed.
